@@ -15,7 +15,7 @@ open ZeepVerif ZeepVerif.Model ZeepVerif.Inflector
     rendered with the same function -/
 theorem c01_definition_spelling (p : CProps) :
     ("pub struct " ++ xmlNameToRustName p.xmlName ++ " {\n") ∈ complexPrefix p := by
-  simp [complexPrefix]
+  simp [complexPrefix, complexHead]
 
 theorem c01_reference_spelling (d : Doc) (pfx l : String) (n : Ns) (hp : lookupNs d pfx = some n)
     (hsplit : splitType (pfx ++ ":" ++ l) = (l, some pfx)) :
@@ -31,7 +31,7 @@ theorem c01_module_spelling (url : String) (existing : List Ns) :
     `{Pascal op}InputEnvelope` / `…OutputEnvelope`, the service writer's method signature uses them -/
 theorem c01_envelope_spelling (opName : String) (op : BindOp) (o : Envelope) (h : op.output = some o) :
     (writeAsyncSoapCall opName op).head? = some ("pub async fn " ++ asFieldName opName ++ "(&self, req: " ++
-      (toPascalCase opName ++ "InputEnvelope") ++ ") -> error::SoapResult<" ++ (toPascalCase opName ++ "OutputEnvelope") ++ "> {\n") := by
+      (xmlNameToRustName opName ++ "InputEnvelope") ++ ") -> error::SoapResult<" ++ (xmlNameToRustName opName ++ "OutputEnvelope") ++ "> {\n") := by
   simp [writeAsyncSoapCall, h, String.append_assoc]
 
 end ZeepVerif.Props.C01
